@@ -67,6 +67,9 @@ def scope(tier, quick, thorough):
 def p_C01(tier, seed):
     n, mp = scope(tier, (4, 2), (5, 2))
     f = engines.engine_A("C01", ["pq"], n, mp, light, ["sorted:pop"])
+    # deeper universe (sizes up to 6: two full levels below the root) with the core alphabet
+    f.merge(engines.engine_A("C01", ["pq"], 6, 1, lambda p: p["op"] not in READS, ["sorted:pop"], alphabet="core",
+                             probe_sample=scope(tier, 10, None), seed=seed))
     nh, nk, no = scope(tier, (16, [16, 24, 40], 300), (64, [16, 33, 64, 100], 1500))
     f.merge(engines.engine_B("C01", ["pq"], seed, nh, nk, no))
     return f
@@ -75,6 +78,8 @@ def p_C01(tier, seed):
 def p_C02(tier, seed):
     n, mp = scope(tier, (4, 2), (5, 2))
     f = engines.engine_A("C02", ["dpq"], n, mp, light, ["sorted:pop_min", "sorted:pop_max", "sorted:alt"])
+    f.merge(engines.engine_A("C02", ["dpq"], 6, 1, lambda p: p["op"] not in READS, ["sorted:pop_min", "sorted:pop_max"],
+                             alphabet="core", probe_sample=scope(tier, 10, None), seed=seed))
     nh, nk, no = scope(tier, (16, [16, 24, 40], 300), (64, [16, 33, 64, 100], 1500))
     f.merge(engines.engine_B("C02", ["dpq"], seed, nh, nk, no))
     return f
@@ -241,7 +246,7 @@ def p_C07(tier, seed):
 
 # ------------------------------------------------------------------ C08 in-place bulk mutation
 def p_C08(tier, seed):
-    n, mp = scope(tier, (4, 2), (5, 2))
+    n, mp = scope(tier, (4, 1), (5, 2))
     wit = ["contents", "sorted:pop", "sorted:pop_min", "sorted:pop_max", "sorted:alt"]
     f = engines.engine_A("C08", ["pq", "dpq"], n, mp, lambda p: p["op"] in INPLACE, wit)
     nh, nk, no = scope(tier, (8, [16, 30], 300), (32, [16, 30, 60], 1500))
@@ -268,7 +273,8 @@ def p_C14(tier, seed):
     def run_kind(kind):
         # pass 1: the covering histories; pass 2: every ordered pair of states compared
         wd = vlib.workdir("C14_mc_" + kind)
-        consts = {"Items": vlib.tla_set(engines.keyset(n)), "MaxP": str(mp), "Kind": vlib.tla_str(kind), "Emit": "TRUE"}
+        consts = {"Items": vlib.tla_set(engines.keyset(n)), "MaxP": str(mp), "Kind": vlib.tla_str(kind), "Emit": "TRUE",
+                  "Alphabet": vlib.tla_str("full")}
         mc = vlib.run_mc("MCQueue", consts, ["WFInv", "OrdInv", "Refines", "PeekInv", "EmitInv"], wd)
         if mc["violated"]:
             raise ToolError("MCQueue invariant violated: %s" % mc["violated"])
@@ -295,6 +301,49 @@ def p_C14(tier, seed):
         return g
     f = run_kind("pq")
     f.merge(run_kind("dpq"))
+    return f
+
+
+# ------------------------------------------------------------------ C15 serialization
+def p_C15(tier, seed):
+    import itertools
+    n, mp = scope(tier, (3, 1), (4, 2))
+
+    def extra(kind, keys, maxp):
+        other = "dpq" if kind == "pq" else "pq"
+        out = []
+        for tk in (kind, other):
+            pm = "pop" if tk == "pq" else "pop_min"
+            use = [{"op": "push", "q": 2, "k": keys[0], "r": maxp}, {"op": "push", "q": 2, "k": "z", "r": 0}, {"op": pm, "q": 2},
+                   {"op": "remove", "q": 2, "k": keys[-1]}, {"op": "contents", "q": 2}]
+            eq = [{"op": "eq", "q": 1, "o": 2}] if tk == kind else []
+            out.append([{"op": "roundtrip", "q": 2, "src": 1, "kind": tk}] + eq + use)
+        out.append([{"op": "ser"}])
+        return out
+    wit = ["contents", "sorted:pop", "sorted:pop_min", "sorted:pop_max"]
+    f = engines.engine_A("C15", ["pq", "dpq"], n, mp, lambda p: False, wit, extra_probes=extra)
+    # every well-typed pair sequence (with repeats) over a small universe, through JSON and through serde tokens
+    ni, npri, ln = scope(tier, (2, 2, 4), (3, 2, 5))
+    allp = [[engines.KEYS[i], r] for i in range(ni) for r in range(npri)]
+    seqs = [list(sq) for l in range(ln + 1) for sq in itertools.product(allp, repeat=l)]
+    cases = []
+    for kind in ("pq", "dpq"):
+        pm = "pop" if kind == "pq" else "pop_max"
+        probes = []
+        for sq in seqs:
+            probes.append([{"op": "de", "q": 2, "kind": kind, "pairs": sq},
+                           {"op": "push", "q": 2, "k": "z", "r": 1}, {"op": pm, "q": 2}, {"op": "contents", "q": 2}])
+            probes.append([{"op": "de_tokens", "q": 1, "kind": kind, "pairs": sq, "lenhint": 0}])
+            probes.append([{"op": "de_tokens", "q": 1, "kind": kind, "pairs": sq, "lenhint": -1}])
+        for j in range(0, len(probes), 300):
+            cases.append({"case": [kind, "de", j], "kind": kind, "hasher": ["std", "fixed"][(j // 300) % 2],
+                          "universe": engines.keyset(ni) + ["z"], "steps": [], "probes": probes[j:j + 300], "wit": wit})
+    t = engines.Findings()
+    t.stats["engines"].append({"engine": "F", "what": "deserialization of every pair sequence with repeats",
+                               "items": ni, "priorities": npri, "max_len": ln, "sequences": len(seqs)})
+    t.samples.append({"engine": "F", "example_sequence": seqs[len(seqs) // 2]})
+    engines.replay_and_validate(cases, vlib.workdir("C15_F"), "F", t)
+    f.merge(t)
     return f
 
 
@@ -407,6 +456,8 @@ PROPS = {
     "C14": {"run": p_C14, "level": "model_checking",
             "relevant": lambda fl: fl["op"] in ("eq", "ne", "clone") or fl["phase"] == "hist"
             or (fl["op"] in ("contents",) and fl.get("event", {}).get("q") == 0)},
+    "C15": {"run": p_C15, "level": "model_checking", "aborts": True,
+            "relevant": lambda fl: fl["cause_op"] in ("de", "roundtrip", "de_tokens", "ser") or fl["op"] in ("de", "roundtrip", "de_tokens", "ser")},
     "C16": {"run": p_C16, "level": "model_checking",
             "relevant": lambda fl: True},
     "C17": {"run": p_C17, "level": "model_checking",
@@ -439,6 +490,26 @@ def run(prop, tier, seed, t0):
     # a raw heap-order breach of the snapshot counts only together with a behavioural witness in the same
     # case (a peek/pop/sorted observation of a non-extreme element); alone it is layout drift
     witnessed = {fl["caseid"] for fl in f.fails if set(fl["tags"]) & (ORDER_TAGS - {"order"})}
+    # counterexample-guided witness search (spec/MCWitness.tla): a case whose raw snapshot broke the heap
+    # order without any behavioural witness is handed to TLC, which searches from that recorded concrete state
+    # for the shortest continuation after which a peek reports a non-extreme element; the continuation is
+    # executed on the real code and judged by the trace specification.  Only that observation counts.
+    todo = {}
+    for fl in f.fails:
+        if "order" in fl["tags"] and fl["caseid"] not in witnessed and fl["case"]:
+            todo.setdefault((fl["kind"], fl["cause_op"], fl["engine"]), fl)
+    if todo:
+        g = witness_search(prop, list(todo.values())[:4])
+        for fl in g.fails:
+            if set(fl["tags"]) & (ORDER_TAGS - {"order"}):
+                f.fails.append(fl)
+                witnessed.add(fl["caseid"])
+                # the original breach belongs to the same defect
+                for o in f.fails:
+                    if "order" in o["tags"] and (o["kind"], o["cause_op"]) == (fl["kind"], fl.get("origin_op")):
+                        witnessed.add(o["caseid"])
+        f.stats["events"] += g.stats["events"]
+        f.stats["cases"] += g.stats["cases"]
     for fl in f.fails:
         if "order" in fl["tags"] and fl["caseid"] not in witnessed:
             fl["tags"] = [t for t in fl["tags"] if t != "order"]
@@ -514,6 +585,67 @@ def run(prop, tier, seed, t0):
     log("[%s] %s: %d violations, %d known findings, wall %.1fs" % (prop, tier, len(violations) + len(abort_v),
                                                                  len(known_hits), time.time() - t0))
     return rc
+
+
+def witness_search(prop, fails):
+    g = engines.Findings()
+    cases = []
+    for n, fl in enumerate(fails):
+        evs = vlib.Events(fl["events"])
+        cause, cl = evs.cause(fl["line"])
+        e = evs.ev(fl["line"])
+        sn = e.get("snap")
+        if not sn:
+            continue
+        wd = vlib.workdir("%s_witness_%d" % (prop, n))
+        sp = os.path.join(wd, "state.ndjson")
+        json.dump({"keys": sn["keys"], "pri": sn["r"], "heap": sn["heap"], "qp": sn["qp"], "size": sn["size"]}, open(sp, "w"))
+        kind = fl["kind"]
+        cont = None
+        for depth in (2, 3, 4):
+            try:
+                mc = vlib.run_mc("MCWitness", {"Kind": vlib.tla_str(kind), "MaxDepth": str(depth), "ExtraPrios": "1"},
+                                 ["NoWitness"], wd, env={"WSTATE": sp}, timeout=40, allow_violation=True)
+            except ToolError:
+                log("[witness] search of depth %d gave up after 40 s" % depth)
+                break
+            for line in open(mc["out"]):
+                if line.startswith('<<"WITNESS", "'):
+                    cont = json.loads(vlib.unescape_tla(line.strip()[len('<<"WITNESS", "'):-3]))
+                    break
+            if cont is not None:
+                break
+        if cont is None:
+            log("[witness] TLC found no continuation of depth <= 4 exposing the raw order breach after %s (%s): layout drift"
+                % (fl["cause_op"], kind))
+            continue
+        peeks = [{"op": "peek"}] if kind == "pq" else [{"op": "peek_min"}, {"op": "peek_max"}]
+        pops = [{"op": "pop"}] if kind == "pq" else [{"op": "pop_min"}, {"op": "pop_max"}]
+        case = dict(fl["case"])
+        cid, cstart = evs.case_of(fl["line"])
+        if fl["phase"] == "hist":
+            # events of the history: reset, (auto new), one per step
+            auto_new = 0 if (case["steps"] and case["steps"][0].get("op") in ("new", "from_vec", "from_iter", "de")) else 1
+            idx = cl - cstart - 1 - auto_new
+            case["steps"] = case["steps"][:idx + 1] + cont + peeks + pops
+            case["probes"] = []
+        else:
+            def same(p):
+                o = (p if isinstance(p, list) else [p])[-1] if False else (p if isinstance(p, list) else [p])
+                return any(x.get("op") == cause["op"] and x.get("k") == cause.get("k") and
+                           (("r" not in x) or x.get("r") == cause.get("r")) for x in o)
+            sel = [p for p in case.get("probes", []) if same(p)][:6]
+            case["probes"] = [(p if isinstance(p, list) else [p]) + cont + peeks + pops for p in sel]
+        case["wit"] = ["sorted:pop", "sorted:pop_min", "sorted:pop_max"]
+        case["case"] = ["witness", n, case.get("case")]
+        cases.append(case)
+        log("[witness] raw order breach after %s (%s): TLC proposes the continuation %s" % (fl["cause_op"], kind, json.dumps(cont)))
+        case["origin_op"] = fl["cause_op"]
+    if cases:
+        engines.replay_and_validate(cases, vlib.workdir(prop + "_witness_replay"), "witness", g, count=False)
+        for fl in g.fails:
+            fl["origin_op"] = (fl["case"] or {}).get("origin_op")
+    return g
 
 
 def minimise(case, fl):
